@@ -301,3 +301,21 @@ Proof.
   - intros Eb. eapply restore_unlocated_none; [exact Hr|auto].
   - apply IH. assumption.
 Qed.
+
+(* ---- trash-list, the other half: an entry that can be read and has a Path prints exactly ONE record - date, blank, location (and the
+   payload path under --files) - in every run, whatever else the environment answers ---- *)
+Definition list_record (o : list_opts) (volume p c rel : str) : str :=
+  let attr := maybe_parse_deletion_date c in
+  let loc := join2 volume rel in
+  (if lo_files o then attr ++ [c_space] ++ loc ++ $" -> " ++ path_of_backup_copy p else attr ++ [c_space] ++ loc) ++ [c_nl].
+
+Lemma list_entry_one_record_lemma o volume p t c rel t' : lo_size o = false ->
+  run_of (print_trashinfo o volume p) t (Done tt) -> t = (ReadText p, RStr c) :: t' -> parse_path c = Some rel ->
+  map fst (filter stdout_ev t) = [Out false (list_record o volume p c rel)].
+Proof.
+  unfold print_trashinfo. intros Hs H Et Hp. apply run_of_bind in H.
+  destruct H as [[t1 [a [t2 [H1 [H2 Et12]]]]]|[e [_ Eo]]]; [|discriminate].
+  apply run_read_text in H1. destruct H1 as [r [Et1 Ha]]. subst t1. rewrite Et12 in Et. cbn [app] in Et. inversion Et; subst r t'. subst a.
+  rewrite Hp, Hs in H2. change (bind (Ret (maybe_parse_deletion_date c)) ?f) with (f (maybe_parse_deletion_date c)) in H2.
+  unfold list_record. destruct (lo_files o); unfold println, Prog.out in H2; apply run_call_unit in H2; destruct H2 as [r' E2]; subst; reflexivity.
+Qed.
